@@ -185,7 +185,9 @@ def auto_fd(ctx):
             if info is None:
                 why = "unmodelled scan carry"
             else:
-                same_f = len({i[0].uid for i in info}) == 1
+                # one scan body: the same closure, or closures made from the same function text (the three scans may be
+                # issued by three calls of one helper parametrised by the step)
+                same_f = len({(id(ev.closures[i[0].args[0]].node) if i[0].op == "closure" else i[0].uid) for i in info}) == 1
                 same_rest = len({tuple(a.uid for a in i[2]) for i in info}) == 1
                 same_xs = len({i[3].uid for i in info}) == 1
                 steps = [strip_wrappers(i[1]) for i in info]
